@@ -525,9 +525,16 @@ Definition x86_64_parser (table:list (N * string)) : parser :=
 Definition i386_parser (table:list (N * string)) : parser :=
   {| p_table := table; p_call_op := "CALL"; p_raw := ["INT $0x80"; "SYSENTER"] |}.
 
-(** ExtractSyscalls: the parser is chosen by the audit architecture id of the record passed in
-    (i386 first); the table used is the parser's own (arch.I386 / arch.X86_64), not the caller's. *)
-Definition extract_syscalls (i386 x86_64:N * list (N * string)) (arch_id:N) (f:file) : outcome (list syscall) :=
-  if arch_id =? fst i386 then parse (i386_parser (snd i386)) f
-  else if arch_id =? fst x86_64 then parse (x86_64_parser (snd x86_64)) f
+(** an architecture record as far as ExtractSyscalls looks at it: Info.ID, Info.SeccompMask, Info.SyscallNumbers *)
+Record arch_rec := { ar_id : N; ar_mask : N; ar_table : list (N * string) }.
+
+(** arch.ID == parser.ID && arch.SeccompMask == parser.SeccompMask *)
+Definition selects (arch_id arch_mask:N) (r:arch_rec) : bool := (arch_id =? ar_id r) && (arch_mask =? ar_mask r).
+
+(** ExtractSyscalls (as repaired by 05effe1): the parser is chosen by the audit architecture id AND the
+    syscall mask of the record passed in (i386 first; x32 shares the id of x86_64 and differs in the
+    mask); the table used is the parser's own (arch.I386 / arch.X86_64). *)
+Definition extract_syscalls (i386 x86_64:arch_rec) (arch_id arch_mask:N) (f:file) : outcome (list syscall) :=
+  if selects arch_id arch_mask i386 then parse (i386_parser (ar_table i386)) f
+  else if selects arch_id arch_mask x86_64 then parse (x86_64_parser (ar_table x86_64)) f
   else Failed EUnsupportedArch.
